@@ -317,7 +317,7 @@ def run_legacy(frames, sr, memory, neighbor, strategy):
     return out
 
 
-def run_table(frames, sr, memory, strategy, entry, perm_rng=None):
+def run_table(frames, sr, memory, strategy, entry, perm_rng=None, extra_kw=None):
     """link / link_df_iter; with perm_rng the rows of the table are shuffled and labels mapped back"""
     import trackpy as tp
     from trackpy.linking.utils import SubnetOversizeException
@@ -332,14 +332,14 @@ def run_table(frames, sr, memory, strategy, entry, perm_rng=None):
             df = pd.DataFrame(rows, columns=cols + ['frame', '_t', '_j'])
             if perm_rng is not None:
                 idx = list(range(len(df))); perm_rng.shuffle(idx); df = df.iloc[idx]
-            out = tp.link(df, srf, pos_columns=cols, memory=memory, link_strategy=strategy)
+            out = tp.link(df, srf, pos_columns=cols, memory=memory, link_strategy=strategy, **(extra_kw or {}))
             labs = [[None] * len(f) for f in frames]
             for t, j, lb in zip(out['_t'].values, out['_j'].values, out['particle'].values):
                 labs[int(t)][int(j)] = int(lb)
             # frames absent from the table (empty) are still steps for link
             return labs
         dfs = [pd.DataFrame({**{c: f[:, i] for i, c in enumerate(cols)}, 'frame': t}) for t, f in enumerate(frames)]
-        return [[int(x) for x in o['particle'].values] for o in tp.link_df_iter(dfs, srf, pos_columns=cols, memory=memory, link_strategy=strategy)]
+        return [[int(x) for x in o['particle'].values] for o in tp.link_df_iter(dfs, srf, pos_columns=cols, memory=memory, link_strategy=strategy, **(extra_kw or {}))]
     except SubnetOversizeException:
         return 'oversize'
 
@@ -421,6 +421,40 @@ def _run(chk):
             if out in ('skip', 'oversize') or out is None or any(o is None for o in out):
                 continue
             dterms.append(c02.case_term(c, out)); dmetas.append((k, name, c, out))
+    # ---- the same matrix WITH adaptive search (strategies and entry points must agree there too): dense clusters,
+    # lowered adaptive limit, memory >= 1; every labelling is judged by C12's monitor (Model/Adaptive.acheck_run)
+    from props import c12
+    aterms, ametas = [], []
+    for k in range(36 if chk.tier == 'quick' else 400):
+        c = c12.gen(rng, chk.tier)
+        c['memory'] = rng.choice([1, 1, 2])
+        c.pop('plain_limit', None)
+        if isinstance(c['sr'], tuple) or linkgen.max_inrange(c['frames'], c['sr'], c['memory']) > 8 or c12.degenerate(c):
+            continue
+        if not len(c['frames'][0]) or not len(c['frames'][-1]):
+            continue
+        stop = float(c['sr'] * c['stop_rel'])
+        akw = dict(adaptive_stop=stop, adaptive_step=float(c['step']))
+        aruns = {}
+        capb = c02.numba_cap_binding(dict(c, strategy='numba'))
+        with linkgen.size_limit(c['max_size']):
+            for st in ['recursive', 'nonrecursive'] + ([] if capb else ['numba', 'hybrid']):
+                aruns['adaptive link_iter/' + st] = linkgen.run_link_iter(c['frames'], c['sr'], memory=c['memory'], link_strategy=st, max_size=c['max_size'],
+                                                                          adaptive=(stop, float(c['step'])))
+            st = rng.choice(['recursive', 'nonrecursive'])
+            aruns['adaptive link/' + st] = run_table(c['frames'], c['sr'], c['memory'], st, 'link', extra_kw=akw)
+            aruns['adaptive link_df_iter/' + st] = run_table(c['frames'], c['sr'], c['memory'], st, 'link_df_iter', extra_kw=akw)
+        for name, out in aruns.items():
+            if out in ('skip', 'oversize') or out is None:
+                continue          # a table entry point that raises gives no labelling to judge (link_iter runs show the raise step)
+            chk.tally('run ' + name.split('/')[0])
+            aterms.append(c12.term(c, out)); ametas.append((name, c, out))
+        chk.count(('adaptive movie', c12.jsonable(c, None)), True)
+    ares = common.coq_eval_lists(chk.work, c12.IMPORTS, c12.FUNC, aterms, tag='adaptive')
+    for (name, c, out), r in zip(ametas, ares):
+        if r != 0:
+            chk.violation('%s: %s' % (name.split('/')[0], c12.CODES.get(r, r)), '%s (memory=%d, limit=%d, adaptive_step=%s): %s' % (name, c['memory'], c['max_size'], c['step'], c12.CODES.get(r, r)),
+                          dict(kind='adaptive-matrix', run=name, code=r, case=c12.jsonable(c, out)))
     res = common.coq_eval_lists(chk.work, IMPORTS, FUNC, terms)
     byk = {}
     for (k, name, c, out), r in zip(metas, res):
@@ -492,6 +526,26 @@ def _replay(chk, path):
                           dict(kind='geniter', code=res[0], graph=g, impl_choice=impl))
         return
     cj = r['case']
+    if r.get('kind') == 'adaptive-matrix':
+        from props import c12
+        frames = [np.array(f, dtype=float).reshape(len(f), -1) for f in cj['frames']]
+        ndim = max([f.shape[1] for f in frames if f.size] or [1])
+        c = dict(frames=[f.reshape(len(f), ndim) for f in frames], sr=Fraction(cj['search_range']), memory=cj['memory'], ndim=ndim, max_size=cj['max_size'],
+                 strategy=cj['link_strategy'], step=Fraction(cj['adaptive_step']), stop_rel=Fraction(cj['adaptive_stop_rel']))
+        name = r['run']; st = name.split('/')[1]
+        stop = float(c['sr'] * c['stop_rel'])
+        with linkgen.size_limit(c['max_size']):
+            if name.startswith('adaptive link_iter'):
+                out = linkgen.run_link_iter(c['frames'], c['sr'], memory=c['memory'], link_strategy=st, max_size=c['max_size'], adaptive=(stop, float(c['step'])))
+            else:
+                out = run_table(c['frames'], c['sr'], c['memory'], st, 'link_df_iter' if 'link_df_iter' in name else 'link',
+                                extra_kw=dict(adaptive_stop=stop, adaptive_step=float(c['step'])))
+        code = common.coq_eval_lists(chk.work, c12.IMPORTS, c12.FUNC, [c12.term(c, out)])[0] if out not in ('skip', 'oversize') else 0
+        chk.count(('replay', cj), True)
+        print('replay:', name, 'labels', out, 'monitor code', code, c12.CODES.get(code))
+        if code != 0:
+            chk.violation('%s: %s' % (name.split('/')[0], c12.CODES.get(code, code)), c12.CODES.get(code, code), dict(kind='adaptive-matrix', run=name, code=code, case=c12.jsonable(c, out)))
+        return
     sr = tuple(Fraction(x) for x in cj['search_range']) if isinstance(cj['search_range'], list) else Fraction(cj['search_range'])
     frames = [np.array(f, dtype=float).reshape(len(f), -1) for f in cj['frames']]
     ndim = max([f.shape[1] for f in frames if f.size] or [2])
